@@ -658,7 +658,7 @@ func (f *Frame) binop(in *ssa.BinOp, reach Term) Term {
 			r = app(x.Sort, map[token.Token]string{token.ADD: "bvadd", token.SUB: "bvsub", token.MUL: "bvmul"}[in.Op], x, y)
 		} else {
 			r = app(SInt, map[token.Token]string{token.ADD: "+", token.SUB: "-", token.MUL: "*"}[in.Op], x, y)
-			if c.checkOvf {
+			if c.checkOvf && f.ownCode() {
 				c.oblige("overflow", f.oname("overflow", in), reach, c.typeRange(r, xt), f.pos(in))
 			}
 			c.assume(tImp(reach, c.typeRange(r, xt)), false)
@@ -735,7 +735,7 @@ func (f *Frame) binop(in *ssa.BinOp, reach Term) Term {
 				p := intLit(int64(1) << uint(n))
 				if in.Op == token.SHL {
 					r := app(SInt, "*", x, p)
-					if c.checkOvf {
+					if c.checkOvf && f.ownCode() {
 						c.oblige("overflow", f.oname("overflow", in), reach, c.typeRange(r, xt), f.pos(in))
 					}
 					return r
@@ -776,7 +776,7 @@ func (f *Frame) convert(in ssa.Instruction, x ssa.Value, to types.Type, reach Te
 		fits := (sf == st2 && wt >= wf) || (!sf && st2 && wt > wf)
 		if !fits {
 			rng := c.typeRange(v, to)
-			if c.checkOvf {
+			if c.checkOvf && f.ownCode() {
 				c.oblige("overflow", f.oname("overflow:conv", in), reach, rng, f.pos(in))
 			}
 			c.assume(tImp(reach, rng), false)
